@@ -10,11 +10,11 @@ from __future__ import annotations
 from .absint import PyNative, _PyCall
 
 REALOF = {"float32": "float32", "float64": "float64", "complex64": "float32", "complex128": "float64",
-          "longdouble": "longdouble", "intc": "intc", "int32": "int32", "int64": "int64", "uint8": "uint8"}
-CHAR = {"float32": "f", "float64": "d", "complex64": "F", "complex128": "D", "longdouble": "g", "intc": "i", "int32": "i", "int64": "l", "uint8": "B"}
+          "longdouble": "longdouble", "intc": "intc", "int32": "int32", "int64": "int64", "uint8": "uint8", "bool": "bool"}
+CHAR = {"float32": "f", "float64": "d", "complex64": "F", "complex128": "D", "longdouble": "g", "intc": "i", "int32": "i", "int64": "l", "uint8": "B", "bool": "?"}
 CTYPE = {"float32": "float", "float64": "double", "complex64": "float _Complex", "complex128": "double _Complex"}
 KIND = {"float32": "floating", "float64": "floating", "longdouble": "floating", "complex64": "complexfloating", "complex128": "complexfloating",
-        "intc": "integer", "int32": "integer", "int64": "integer", "uint8": "integer"}
+        "intc": "integer", "int32": "integer", "int64": "integer", "uint8": "integer", "bool": "bool_"}
 
 
 def name_of(t) -> str:
